@@ -233,7 +233,7 @@ def inprocess(chk, scenarios):
         chk.case(key=("inproc-dupname-unmapped", fmt), nontrivial=True)
         done += 1
         try:
-            build.build(cfg, srcs)
+            build.build(cfg, srcs, fea=False)     # (the generated ccmp feature has nothing to say about an unmapped row)
             chk.violation(f"in-process: two glyph-map rows named {first.glyph_name!r} (the other one without codepoints) in {fmt} produced a font",
                           {"format": fmt, "rows": [(s2.filename, s2.glyph_name, list(s2.cps)) for s2 in srcs]})
         except Exception:
